@@ -116,7 +116,8 @@ end
     Euclidean norm from above, so "shrunk by the margin" means at least that much Euclidean room and "grown by the
     margin" at least that much Euclidean slack — a margin in raw residuals would be meaningless for rows of large norm) -/
 def shift (p : Aff Q) (d : Q) : Aff Q :=
-  { p with bias := (p.mat.zip p.bias).map (fun (a, b) => b + d * max 1 (a.foldl (fun s v => s + absQ v) 0)) }
+  -- a row with all-zero coefficients is a tautology or a contradiction whatever `x` is: it has no face to move
+  { p with bias := (p.mat.zip p.bias).map (fun (a, b) => if isZeroVec a then b else b + d * max 1 (a.foldl (fun s v => s + absQ v) 0)) }
 
 def margin : Q := mkRat 1 1000000
 
@@ -348,6 +349,14 @@ def judgeHist : P Verdict := do
   -- constructor description (only recorded as a tag)
   let ctor ← tok
   tag s!"ctor-{ctor}"
+  -- C01: the polyhedral precondition itself (polytope, optional map outside of it)
+  let mut prePoly : Option (Aff Q × Option (Aff Q)) := none
+  if ctor == "precondition" && (← peek?) == some "poly" then
+    let _ ← tok
+    let p ← pAff
+    let t ← tok
+    let ff ← if t == "some" then (do pure (some (← pAff))) else pure none
+    prePoly := some (p, ff)
   -- skip constructor arguments up to the bar
   let mut guard := 0
   while guard < 100000 do
@@ -370,9 +379,9 @@ def judgeHist : P Verdict := do
   if !PT.shapedb 2 n m0 t0 then return .propfail s!"[C04] constructor {ctor} produced an ill-shaped tree"
   for (x, e) in pts.zip ev0 do
     if e != .val (PT.eval t0 x) then
-      match e, PT.eval t0 x with
-      | .val (some a), some b => if cmpVec a b == .different then return .diverge s!"evaluate differs from the model on the initial tree at {showVec x}"
-      | _, _ => return .diverge s!"evaluate differs from the model on the initial tree at {showVec x}"
+      match e with
+      | .val got => if evalCmp t0 x (PT.eval t0 x) got == .different then return .diverge s!"evaluate differs from the model on the initial tree at {showVec x}"
+      | _ => return .diverge s!"evaluate differs from the model on the initial tree at {showVec x}"
   let mut step := 0
   let mut inexact := false
   let mut nontrivial := false
@@ -415,7 +424,7 @@ def judgeHist : P Verdict := do
       match e with
       | .panic => return .propfail s!"[C04] step {step} ({opname}): evaluate panics at {showVec x} afterwards"
       | .val got =>
-        match optVecCmp want got with
+        match evalCmp t' x want got with
         | .same => pure ()
         | .close => inexact := true
         | .different =>
@@ -426,7 +435,7 @@ def judgeHist : P Verdict := do
       for ((x, e), r) in (pts.zip ev').zip er do
         match e, r with
         | .val a, .val b =>
-          if optVecCmp a b == .different then
+          if evalCmp t' x a b == .different then
             return .propfail s!"[{if nfaults > 0 then "C11" else "C03"}] step {step} ({opname}): pruned and un-pruned composition differ at {showVec x}: {showOptVec a} vs {showOptVec b}"
         | _, _ => pure ()
     -- shape (C04)
@@ -535,11 +544,15 @@ def judgeHist : P Verdict := do
     let _ := dim
     -- specification: inside the precondition the network's output, outside undefined
     for (x, e) in pts.zip evB do
-      let want := (PT.eval t0 x).map (netEval consts layers)
+      -- with a polyhedral precondition: inside the polytope the network, outside of it nothing (or the network after the
+      -- given other map); otherwise the precondition is the tree handed to the builder
+      let want := match prePoly with
+        | some (p, ff) => (if Poly.memb p x then some x else ff.map (fun f => f.apply x)).map (netEval consts layers)
+        | none => (PT.eval t0 x).map (netEval consts layers)
       match e with
       | .panic => return .propfail s!"[C01] evaluate panics on the distilled tree at {showVec x}"
       | .val got =>
-        match optVecCmp want got with
+        match evalCmp t x want got with
         | .same => pure ()
         | .close => inexact := true
         | .different =>
